@@ -307,6 +307,31 @@ static void range_faults(int64_t a, int64_t b, int64_t st) {
   FAULT(rg, dump_range, FC_INDEX, "get", "-len-1", get(rg, $I(-n - 1)));
   FAULT(rg, dump_range, FC_INDEX, "get", "-len-7", get(rg, $I(-n - 7)));
   FAULT(rg, dump_range, FC_INDEX, "get", "len+1000", get(rg, $I(n + 1000)));
+  /* "left exactly as it was" includes an iteration that is under way: a Range (and a Slice, through its own Range)
+     keeps its cursor inside itself; a refused get in the loop body must not move it */
+  for (int view = 0; view < 2; view++) {
+    var arr = new(Array, Int);
+    for (int i = 0; i < 9; i++) { push(arr, $I(100 + i)); }
+    var it_obj = view == 0 ? rg : (var)new(Slice, arr, $I(1), $I(8), $I(2));
+    int64_t want_n = (int64_t)len(it_obj), seen = 0, sum = 0, want_sum = 0;
+    for (int64_t i = 0; i < want_n; i++) { want_sum += c_int(get(it_obj, $I(i))); }
+    for (var it = iter_init(it_obj); it != Terminal && seen <= want_n; it = iter_next(it_obj, it)) {
+      int64_t before = c_int(it);
+      var exc = NULL;
+      VH_CATCH(get(it_obj, $I(want_n + (seen % 3))), exc);
+      vh_evals(2);
+      if (exc != IndexOutOfBoundsError) { vh_violation("C12:iteration:get-out-of-range-did-not-raise", "get(%" PRId64 ") on a %s of %" PRId64 " items gave %s", want_n + (seen % 3), view ? "Slice" : "Range", want_n, vh_exc_name(exc)); }
+      if (c_int(it) != before) { vh_violation(view ? "C12:Slice:get:during-iteration:object-changed" : "C12:Range:get:during-iteration:object-changed", "the item the loop is at changed from %" PRId64 " to %" PRId64 " across a refused get", before, c_int(it)); break; }
+      sum += before; seen++;
+    }
+    vh_eval();
+    if (seen != want_n || sum != want_sum) {
+      vh_violation(view ? "C12:Slice:get:during-iteration:object-changed" : "C12:Range:get:during-iteration:object-changed", "an iteration with a refused get in its body visited %" PRId64 " of %" PRId64 " items (sum %" PRId64 ", expected %" PRId64 ")", seen, want_n, sum, want_sum);
+    }
+    if (view == 1) { del(it_obj); }
+    del(arr);
+    vh_count("iterations_with_a_refused_get_in_the_body");
+  }
   vh_count("range_objects_faulted");
   del(rg);
 }
